@@ -234,11 +234,13 @@ class TermRule(BaseRule):
             s = s0.copy()
             it.assign(s, g.target, tv(T("each", I), none=False))
             conds = [self.cond_term(it, s, c) for c in g.ifs]
-            ev_, _ = it.eval(s, node.elt)
+            ev_, r2 = it.eval(s, node.elt)
             if len(ev_) != 1:
                 return None
             kind = {ast.GeneratorExp: "gen", ast.ListComp: "listcomp", ast.SetComp: "setcomp"}[type(node)]
-            return [(s0, tv(T(kind, term_of(ev_[0][1]), I, *conds), none=False))], list(raises)
+            # an element expression that may raise (int(x), ...) makes the whole comprehension raise (eagerly for list/set displays)
+            er = [o for o in r2 if o.kind == "raise"] if kind != "gen" else []
+            return [(s0, tv(T(kind, term_of(ev_[0][1]), I, *conds), none=False))], list(raises) + er
         return None
 
     def cond_term(self, it, st, e):
